@@ -24,7 +24,6 @@ import (
 	"strings"
 	"sync"
 	"testing"
-	"time"
 
 	"github.com/nuts-foundation/go-did/did"
 	"github.com/nuts-foundation/go-stoabs"
@@ -475,7 +474,11 @@ func (q *seqRun) offer(o *offerT, slot string, light bool) bool {
 		}
 	case mustReject:
 		if !refused {
-			r.Count("model_disagreements", 1)
+			if o.f.key != "" {
+				r.Count("lenient_reencodings_admitted(known-finding classes)", 1)
+			} else {
+				r.Count("model_disagreements", 1)
+			}
 			r.Violation("C06/admitted/"+key, fmt.Sprintf("a %s variant entered the DAG although %s", o.f.class, why), witness())
 			admitted = true // follow the code so that later comparisons stay meaningful
 		} else {
@@ -664,16 +667,12 @@ func sequential(t *testing.T, r *ev.Run, ks *keyring) {
 			defer wg.Done()
 			for di := range jobs {
 				local := map[string]int{}
-				t0 := time.Now()
 				runDAG(t, r, ks, di, specs[di], local)
 				mu.Lock()
 				for k, v := range local {
 					classes[k] += v
 				}
 				mu.Unlock()
-				if os.Getenv("C06_TIMING") != "" {
-					fmt.Printf("dag %d %s n=%d did=%v: %v\n", di, specs[di].shape, specs[di].n, specs[di].withDID, time.Since(t0))
-				}
 			}
 		}()
 	}
@@ -690,6 +689,7 @@ func sequential(t *testing.T, r *ev.Run, ks *keyring) {
 	}
 	close(jobs)
 	wg.Wait()
+	r.Count("model_disagreements", 0)
 	r.Extra("variants_by_class", classes)
 	r.Extra("variant_classes_offered", len(classes))
 }
